@@ -1,15 +1,43 @@
 """What MANIFEST.json claims (edited by hand; bin/gen_manifest.py renders it)."""
 HOOK_COMMITS = []
 ENGINES = [
- {"name": "TV", "path": "engine/tv", "serves_properties": ["C01"], "kind_free_text": "real transformer on formulas with free leaves; independent FNode->z3 translation; z3 validity query per instance (all interpretations)"},
- {"name": "XH", "path": "engine/xh", "serves_properties": [], "kind_free_text": "CrossHair symbolic execution of the real pySMT functions with symbolic payloads/selectors (z3 per path)"},
+ {"name": "TV", "path": "engine/tv", "serves_properties": ["C01","C02","C05","C06","C07","C09","C10","C11"], "kind_free_text": "real transformer on formulas with free leaves; independent FNode->z3 translation; z3 validity query per instance (all interpretations)"},
+ {"name": "XH", "path": "engine/xh", "serves_properties": ["C02","C05"], "kind_free_text": "CrossHair symbolic execution of the real pySMT functions with symbolic payloads/selectors (z3 per path)"},
  {"name": "AZ", "path": "engine/az", "serves_properties": [], "kind_free_text": "Python-AST -> z3 encodings with ITE merging, regenerated from /repo source each run"},
 ]
 NOTES = "Solver-based checking of the real code; see DESIGN.md. Exit codes: 0 held, 1 reproduced unlisted violation, 2 harness error."
 NOT_APPLICABLE = {}
 CHECKS = {
- "C01": {"level": "model_checking", "engine": "TV+XH+AZ",
-         "technique": "z3 validity of simplify(f)==f over a bounded-exhaustive grammar (all interpretations); CrossHair on folding rules with symbolic constants",
-         "text": "bounded symbolic: every operator x argument shape to depth 2, all interpretations / all constant payloads inside the stated widths decided by z3",
-         "note": "trusts z3, CrossHair, the independent translator/evaluator in engine/ref; depth>2 argued by compositionality"},
+ "C01": {"level": "model_checking", "engine": "TV",
+         "technique": "z3 validity of simplify(f)==f over a bounded-exhaustive grammar (all interpretations), real Simplifier run on formulas with free leaves",
+         "text": "bounded symbolic: every operator x argument shape to depth 2 with boundary constants; z3 decides equality of input and output under ALL interpretations (Int/Real unbounded, BV all values at widths 1,2,3,8)",
+         "note": "trusts z3 and the independent translator engine/ref/tr_z3.py; depth>2 argued by compositionality (bottom-up rules over simplified children)"},
+ "C02": {"level": "model_checking", "engine": "XH+TV",
+         "technique": "CrossHair symbolic execution of EagerModel.get_value/satisfies with symbolic assigned values vs reference evaluator; z3 validity of value==denotation on grammar terms",
+         "text": "per operator x width: all assigned values explored symbolically (Confirmed over all paths); ground evaluation of ~3e5 grammar instances decided by z3 incl. array results and partial models",
+         "note": "trusts CrossHair+z3, SymKeyDict dict model, bit-op plugin, engine/ref/refeval.py; widths/lengths bounded as listed in evidence"},
+ "C05": {"level": "translation_validation", "engine": "TV+XH",
+         "technique": "real substituters vs z3.substitute/substitute_funs on the independent translation (z3 validity); CrossHair over key masks vs reference MGS/MSS",
+         "text": "substitution lemma decided by z3 for all interpretations on ~1.4e5 (formula, map, strategy) instances; term-keyed replacement order compared with an independent recursive definition over all 2^6 key masks",
+         "note": "trusts z3.substitute as capture-free substitution; maps <= 3 keys, replacement depth 1"},
+ "C06": {"level": "translation_validation", "engine": "TV",
+         "technique": "z3 validity of derived constructor == directly written z3 term for all argument values",
+         "text": "every derived constructor / infix form at the listed arities and widths proven equal to its named function for ALL argument values (exact for Int/Real/BV)",
+         "note": "trusts z3's SMod/AtMost/PbEq/Rotate as the named functions"},
+ "C07": {"level": "translation_validation", "engine": "TV+AZ",
+         "technique": "exported text read by z3's own SMT-LIB front end and proven equal to the independent translation (z3 validity); regex-inclusion query for quoting",
+         "text": "tree and DAG export of ~7e3 formulas accepted by an independent reader with no pre-declared symbols and equal in meaning for all interpretations; unquoted names proven to be SMT-LIB simple symbols for all lengths",
+         "note": "z3's reader is more permissive than the standard (Int/Real coercion); pow / non-ASCII strings not readable by it"},
+ "C09": {"level": "translation_validation", "engine": "TV",
+         "technique": "print->parse identity on the export grammar; z3 validity for constant arrays and HR regrouping",
+         "text": "identity of parse(print(f)) for tree/DAG printers, command-list equality for scripts, HR round trip on ~1.2e5 terms with z3 deciding equivalence where objects differ",
+         "note": "identity clauses are exhaustive runs over the bounded grammar, the solver decides the equivalence clauses only"},
+ "C10": {"level": "translation_validation", "engine": "TV",
+         "technique": "z3 validity of T(f)==f for nnf/prenex/aig/TimesDistributor/partitions/propagate_toplevel/QE over Boolean skeleton grammars incl. nested quantifiers",
+         "text": "equivalence under all interpretations (Bool/BV quantifiers exact) plus advertised-shape recognisers, ~8e4 instances quick / 1.3e6 thorough",
+         "note": "Int quantifier instances rely on z3's quantifier reasoning (unknown counted)"},
+ "C11": {"level": "translation_validation", "engine": "TV",
+         "technique": "quantified z3 validity queries: f => exists aux. cnf(f), cnf(f) => f; Ackermann: extension, abstraction and functional-consistency queries",
+         "text": "model-by-model equisatisfiability decided by z3 with auxiliary symbols quantified, form recognisers, incl. re-used Ackermannizer instances",
+         "note": "theory atoms opaque; <= 6 applications per symbol"},
 }
